@@ -38,6 +38,8 @@ ints = st.one_of(
     st.sampled_from([INT63 - 1, INT63, -INT63, -INT63 - 1, 2 ** 64, -2 ** 64, 2 ** 70, -2 ** 70,
                      2 ** 31, 10 ** 30]),
     st.integers(-2 ** 70, 2 ** 70),
+    # beyond the range of a double (float(n) raises OverflowError)
+    st.sampled_from([2 ** 1024, -2 ** 1030, 10 ** 400]),
 )
 nice_floats = st.one_of(
     st.integers(-500, 500).map(lambda k: k / 100),
@@ -49,6 +51,9 @@ finite_floats = st.one_of(
     st.floats(-1e6, 1e6, allow_nan=False, allow_infinity=False),
     st.floats(allow_nan=False, allow_infinity=False, width=64),
     st.sampled_from([1e30, -1e30, 1e300, 9.3e18, -9.3e18, float(2 ** 63), 5e-324, 1e-17, -3e-200, 2.5e-16]),
+    # subnormal numbers with an odd mantissa (x / 2 * 2 != x), the largest finite numbers
+    st.sampled_from([5e-324, 1.5e-323, 2.5e-323, -5e-324, -1.5e-323, 3.5e-323, 1.7976931348623157e308,
+                     -1.7976931348623157e308, 1e308, 2.2250738585072014e-308]),
 )
 TEXT_ALPHABET = "abcxyz AB019-_.é߀"
 texts = st.text(alphabet=TEXT_ALPHABET, max_size=6)
@@ -62,7 +67,11 @@ datetimes = st.one_of(
                                             _dt.timezone(_dt.timedelta(hours=3))])),
     st.sampled_from([_dt.datetime.min, _dt.datetime.max]),
 )
-dates = st.one_of(st.dates(), st.sampled_from([_dt.date.min, _dt.date.max, _dt.date(2000, 2, 29)]))
+plain_dates = st.one_of(st.dates(), st.sampled_from([_dt.date.min, _dt.date.max, _dt.date(2000, 2, 29)]))
+# a datetime is a date (subclass) and schema.date takes it as its fixed value
+dates = st.integers(0, 7).flatmap(lambda i: st.sampled_from([_dt.datetime(2021, 3, 4, 5, 6, 7), _dt.datetime(2000, 1, 1),
+                                                              _dt.datetime(1999, 12, 31, 23, 59, 59, 999999)])
+                                  if i == 0 else plain_dates)
 dict_keys = st.one_of(
     st.sampled_from(["a", "b", "c", "id", "k k", "", "é"]),
     st.sampled_from(["a", "b", "c", "d", "e"]),
@@ -101,6 +110,8 @@ def len_around(draw, n, big=False):
     if n is None:
         hi = 45 if big else 6
         a = draw(st.integers(0, hi))
+        if big and draw(st.integers(0, 7)) == 0:
+            a = draw(st.sampled_from([256, 257, 300]))      # beyond CPython's cache of small int objects
         if kind == "eq":
             return ["eq", a]
         if kind == "min":
@@ -203,6 +214,9 @@ def float_spec(draw, sat=True):
             s["_grid_witness"] = g
         else:
             lo = draw(finite_floats)
+            if draw(st.integers(0, 9)) == 0:
+                # bounds among the subnormal numbers (no halving, doubling or mid-point is exact there)
+                lo = draw(st.integers(-9, 9)) * 5e-324
             which = draw(st.sampled_from(["min", "max", "both"])) if p is None else \
                 draw(st.sampled_from(["none", "min", "max", "both"]))
             if which in ("min", "both"):
@@ -212,8 +226,10 @@ def float_spec(draw, sat=True):
             if which == "both":
                 if sat:
                     hi = lo + abs(draw(st.one_of(nice_floats, finite_floats)))
-                    if hi != hi or hi in (float("inf"), float("-inf")) or hi < lo:
-                        hi = lo
+                    if abs(lo) < 1e-300 and draw(st.booleans()):
+                        hi = lo + draw(st.integers(0, 5)) * 5e-324
+                    if hi != hi or hi in (float("inf"), float("-inf")) or hi < lo or draw(st.integers(0, 5)) == 0:
+                        hi = lo         # a single admissible number
                     s["max"] = hi
                 else:
                     s["max"] = draw(finite_floats)
@@ -273,8 +289,10 @@ def str_spec(draw, sat=True, patterns=True):
                 lf = draw(st.sampled_from([["eq", 0], ["max", 0], ["max", 3], ["min", 0],
                                            ["range", 0, 2]]))
             else:
-                n = base + draw(st.one_of(st.integers(0, 4), st.sampled_from([30, 32, 33, 40, 80])))
+                n = base + draw(st.one_of(st.integers(0, 4), st.sampled_from([30, 32, 33, 40, 80, 257, 300])))
                 lf = draw(len_around(n))
+                if draw(st.integers(0, 11)) == 0:
+                    lf = ["eq", draw(st.sampled_from([257, 300]))]
             s["len"] = lf
         else:
             s["len"] = draw(len_free())
@@ -306,13 +324,18 @@ def list_spec(draw, depth, sat, opts):
                                  "contains", "ellipsis"]))
     s = {"t": "list", "form": form}
     sub = spec_strategy(depth - 1, sat, **opts)
+    long_eq = draw(st.integers(0, 11)) == 0       # an exact length beyond CPython's cache of small int objects
     if form == "untyped":
-        if draw(st.booleans()):
+        if long_eq:
+            s["len"] = ["eq", draw(st.sampled_from([257, 300]))]
+        elif draw(st.booleans()):
             s["len"] = draw(len_around(None, big=True)) if sat else draw(len_free())
         return s
     if form == "typed":
         s["elem"] = draw(sub)
-        if draw(st.booleans()):
+        if long_eq:
+            s["len"] = ["eq", draw(st.sampled_from([257, 300]))]
+        elif draw(st.booleans()):
             s["len"] = draw(len_around(None, big=draw(st.integers(0, 5)) == 0)) if sat \
                 else draw(len_free())
         return s
@@ -356,6 +379,12 @@ def any_spec(draw, depth, sat, opts):
     if draw(st.integers(0, 7)) == 0:
         return {"t": "any"}
     sub = spec_strategy(depth - 1, sat, **opts)
+    if draw(st.integers(0, 6)) == 0:
+        # an enumeration: every alternative is a constant
+        const = st.one_of(st.just({"t": "none"}), small_ints.map(lambda v: {"t": "int", "value": v}),
+                          st.integers(199, 203).map(lambda v: {"t": "int", "value": v}),
+                          texts.map(lambda v: {"t": "str", "value": v}))
+        return {"t": "any", "alts": draw(st.lists(const, min_size=2, max_size=5))}
     alts = draw(st.lists(sub, min_size=1, max_size=3))
     if not sat and draw(st.integers(0, 2)) == 0:
         # (only where satisfiability is not promised: a variant of a satisfiable alternative need not be one)
